@@ -83,7 +83,9 @@ class FaultSock(object):
     inp: bytes to serve; when exhausted recv() returns b'' (EOF) unless
     eof_error is set.  send_fail_at: index of the send() call that raises."""
 
-    def __init__(self, inp=(), send_fail_at=None, recv_chunks=None):
+    def __init__(self, inp=(), send_fail_at=None, recv_chunks=None,
+                 block_when_empty=False):
+        self.block_when_empty = block_when_empty
         self.inp = newbuf(list(inp))
         self.out = newbuf()
         self.sent_records = []
@@ -110,6 +112,8 @@ class FaultSock(object):
     def recv(self, n):
         self.recvs += 1
         n = int(n)
+        if len(self.inp) == 0 and self.block_when_empty:
+            raise socket.error(errno.EWOULDBLOCK, "would block")
         if len(self.inp) == 0:
             self.recv_after_eof += 1
             if self.recv_after_eof > 8:
